@@ -22,8 +22,8 @@ func keyHas(subs ...string) func(string) bool {
 }
 
 func init() {
-	prop("C01", []string{"FILTERED", "MGETSORT", "NOROWDROP", "GETNIL", "BYTESFRESH", "DISPATCH", "TWINPRIM", "PRIMWIRE", "OPMAPS", "ASTIMMUT", "ROWINDEX", "EVALBOTH", "STICKYFLAG", "REORDERGUARD", "FOLDKIND", "FOLDERR", "FOLDFLAGS", "ROWCARRY", "OP2TABLE", "PARSEARGS", "IFACEEQ", "ROWALIAS", "ARGFRESH", "ATOMALG", "RANGEALG", "PREFIXALG", "SCANALG", "SHORTBATCH", "REGIONSTICKY", "FOLDRET"},
-		"Structural necessary conditions of C01, for every access path and both iteration modes: FILTERED (a pair leaves a scan only under the true result of the full filter applied to that same pair), NOROWDROP (no loop over a fetched batch drops already-consumed rows), MGETSORT (point reads are returned in sorted key order), GETNIL (a stored pair with an empty value is a pair), BYTESFRESH (evaluation never appends into memory it did not allocate, so stored values come back unmodified), DISPATCH/TWINPRIM/PRIMWIRE/OPMAPS (each operator the user writes is routed, in both modes, to the Go primitive the documentation names, with the same operator literal and operand order; conversion/string functions reach their documented primitives), ASTIMMUT (evaluation does not mutate the expression tree, so repetitions agree). ROWINDEX/ROWCARRY (a vector operator reads row-dependent operands per row, never from a fixed row of the chunk nor from a value computed for an earlier row and carried along), EVALBOTH (vector operators evaluate both operands), STICKYFLAG with FOLDKIND/FOLDERR/FOLDFLAGS/REORDERGUARD (the predicate that is executed is the predicate that was written: the rewriter's structural side conditions, shared with C04). OP2TABLE(query) (the text that is lexed is the text the caller wrote: literals are not rewritten before parsing). PARSEARGS (numbers are read from text with base 10 / 64 bits everywhere), IFACEEQ (no type-strict interface equality or interface-keyed maps in evaluation code), ROWALIAS (no rewritten object shared by all rows of a chunk), ARGFRESH (function bodies do not write into their inputs). ATOMALG/RANGEALG/PREFIXALG/SCANALG(sound) (the access path chosen for the WHERE clause covers every pair that satisfies it), SHORTBATCH (no scan ends its stream early with an empty batch). REGIONSTICKY(only-at-end, reset) (a scan marks itself finished only where its cursor or region ended, so no later call is cut short). FOLDRET (the folder's `is a literal` flags are constants tied to freshly built literal nodes).",
+	prop("C01", []string{"FILTERED", "MGETSORT", "NOROWDROP", "GETNIL", "BYTESFRESH", "DISPATCH", "TWINPRIM", "PRIMWIRE", "OPMAPS", "ASTIMMUT", "ROWINDEX", "EVALBOTH", "STICKYFLAG", "REORDERGUARD", "FOLDKIND", "FOLDERR", "FOLDFLAGS", "ROWCARRY", "OP2TABLE", "PARSEARGS", "IFACEEQ", "ROWALIAS", "ARGFRESH", "ATOMALG", "RANGEALG", "PREFIXALG", "SCANALG", "SHORTBATCH", "REGIONSTICKY", "FOLDRET", "INITFRESH"},
+		"Structural necessary conditions of C01, for every access path and both iteration modes: FILTERED (a pair leaves a scan only under the true result of the full filter applied to that same pair), NOROWDROP (no loop over a fetched batch drops already-consumed rows), MGETSORT (point reads are returned in sorted key order), GETNIL (a stored pair with an empty value is a pair), BYTESFRESH (evaluation never appends into memory it did not allocate, so stored values come back unmodified), DISPATCH/TWINPRIM/PRIMWIRE/OPMAPS (each operator the user writes is routed, in both modes, to the Go primitive the documentation names, with the same operator literal and operand order; conversion/string functions reach their documented primitives), ASTIMMUT (evaluation does not mutate the expression tree, so repetitions agree). ROWINDEX/ROWCARRY (a vector operator reads row-dependent operands per row, never from a fixed row of the chunk nor from a value computed for an earlier row and carried along), EVALBOTH (vector operators evaluate both operands), STICKYFLAG with FOLDKIND/FOLDERR/FOLDFLAGS/REORDERGUARD (the predicate that is executed is the predicate that was written: the rewriter's structural side conditions, shared with C04). OP2TABLE(query) (the text that is lexed is the text the caller wrote: literals are not rewritten before parsing). PARSEARGS (numbers are read from text with base 10 / 64 bits everywhere), IFACEEQ (no type-strict interface equality or interface-keyed maps in evaluation code), ROWALIAS (no rewritten object shared by all rows of a chunk), ARGFRESH (function bodies do not write into their inputs). ATOMALG/RANGEALG/PREFIXALG/SCANALG(sound) (the access path chosen for the WHERE clause covers every pair that satisfies it), SHORTBATCH (no scan ends its stream early with an empty batch). REGIONSTICKY(only-at-end, reset) (a scan marks itself finished only where its cursor or region ended, so no later call is cut short). FOLDRET (the folder's `is a literal` flags are constants tied to freshly built literal nodes). INITFRESH (a re-initialised plan scans its region again from the start).",
 		"The end-to-end row set needs evaluation of predicates on values; duplicates from repeated/overlapping IN literals and literal-on-the-left comparisons are not structurally decidable (DESIGN.md §6).")
 	propTable["C01"].KeyFilter["REGIONSTICKY"] = keyHas("|only-at-end", "|reset", "|fetch", "|loop")
 	propTable["C01"].KeyFilter["ATOMALG"] = keyHas("|sound", "|interpretable", "|closed")
@@ -122,14 +122,14 @@ func init() {
 		"Structural necessary conditions of C16: OP2TABLE (every operator/punctuation token carries the text it stands for and its own offset; two-character operators are recognised from the previous character, which is updated on every iteration; the lexer scans the caller's text unchanged), KWTABLE (words are case-folded as a whole and classified by the table), WORDRESET (the pending-word start/length/offset are re-armed consistently by every arm of the scanner).",
 		"Byte-for-byte preservation of quoted content and full spacing invariance need execution over strings.")
 
-	prop("C17", []string{"POSPROV", "OP2TABLE", "USERIDX", "WORDRESET"},
-		"Structural necessary conditions of C17: POSPROV (every position given to an error or stored in a node is -1, 0, a token offset or another node's position, never computed; Token.Pos is written only by the lexer), OP2TABLE (token offsets are offsets into the caller's text), USERIDX (the renderer's window slices are bounded by the rendered text's own length and relate the offset to it).",
+	prop("C17", []string{"POSPROV", "OP2TABLE", "USERIDX", "WORDRESET", "ERRPURE"},
+		"Structural necessary conditions of C17: POSPROV (every position given to an error or stored in a node is -1, 0, a token offset or another node's position, never computed; Token.Pos is written only by the lexer), OP2TABLE (token offsets are offsets into the caller's text), USERIDX (the renderer's window slices are bounded by the rendered text's own length and relate the offset to it). ERRPURE (rendering an error stores nothing into it: a later BindQuery / SetPadding is reflected).",
 		"Caret alignment arithmetic is string arithmetic (DESIGN.md §6).")
 	propTable["C17"].KeyFilter["OP2TABLE"] = keyHas("|query|", "|pos")
 	propTable["C17"].KeyFilter["USERIDX"] = keyHas("outputQueryAndErrPos", "generatePads")
 
-	prop("C18", []string{"PLANMAP", "MUTSITE", "ROLECHAIN", "REGIONSTICKY", "NARROWONLYKEY", "ROUTE", "RANGEALG", "PREFIXALG", "ERRPROP", "SCANALG", "ATOMALG"},
-		"Structural necessary conditions of C18: PLANMAP (EMPTY reads nothing, MGET uses point reads only and all keys, PREFIX/RANGE use the matching cursor plan, and the chosen access path is not replaced later), MUTSITE(e) (the point-read plan calls only Get, the empty plan nothing), ROLECHAIN (seek to the region start, stop at the first key beyond the inclusive end / without the prefix), REGIONSTICKY (leaving the region is recorded in the plan and guards every later cursor read, across calls), ROUTE/NARROWONLYKEY (equality and IN produce point regions). PREFIXALG (AND of a prefix with a prefix, range or key set reads nothing when the operands share no key), ERRPROP on the scan plans (a failed Seek or cursor creation is not followed by reads from an unpositioned cursor). SCANALG (AND of any two scan kinds reads nothing when they share no key). ATOMALG (key-pinning atoms read only the pinned region; equality and IN use point reads).",
+	prop("C18", []string{"PLANMAP", "MUTSITE", "ROLECHAIN", "REGIONSTICKY", "NARROWONLYKEY", "ROUTE", "RANGEALG", "PREFIXALG", "ERRPROP", "SCANALG", "ATOMALG", "INITFRESH"},
+		"Structural necessary conditions of C18: PLANMAP (EMPTY reads nothing, MGET uses point reads only and all keys, PREFIX/RANGE use the matching cursor plan, and the chosen access path is not replaced later), MUTSITE(e) (the point-read plan calls only Get, the empty plan nothing), ROLECHAIN (seek to the region start, stop at the first key beyond the inclusive end / without the prefix), REGIONSTICKY (leaving the region is recorded in the plan and guards every later cursor read, across calls), ROUTE/NARROWONLYKEY (equality and IN produce point regions). PREFIXALG (AND of a prefix with a prefix, range or key set reads nothing when the operands share no key), ERRPROP on the scan plans (a failed Seek or cursor creation is not followed by reads from an unpositioned cursor). SCANALG (AND of any two scan kinds reads nothing when they share no key). ATOMALG (key-pinning atoms read only the pinned region; equality and IN use point reads). INITFRESH (Init always positions a fresh cursor).",
 		"That intersection* returns a region inside both operands depends on order relations among literals (DESIGN.md §6).")
 	propTable["C18"].KeyFilter["ATOMALG"] = keyHas("|tight", "|interpretable")
 	propTable["C18"].KeyFilter["SCANALG"] = keyHas("|tight", "|interpretable")
@@ -139,7 +139,7 @@ func init() {
 	propTable["C18"].KeyFilter["RANGEALG"] = keyHas("|tight", "|interpretable")
 	propTable["C02"].KeyFilter["RANGEALG"] = keyHas("|sound", "|interpretable", "|closed")
 
-	prop("C19", []string{"GLOBALS"},
-		"Structural necessary condition of C19 (absence of shared mutable library state): GLOBALS enumerates every package-level variable and shows that no function outside the package initializer and the registration API stores to one, updates or deletes in a map reachable from one, passes one by address to a call, or stores through a shared registry row; NOREFLECT shows the library starts no goroutine and uses no unsafe. Every statement's AST, plan and ExecuteCtx are allocated by its own NewOptimizer/NewExecuteCtx calls, so statements share only read-only tables and the caller's Storage.",
+	prop("C19", []string{"GLOBALS", "BYTESFRESH", "ARGFRESH"},
+		"Structural necessary condition of C19 (absence of shared mutable library state): GLOBALS enumerates every package-level variable and shows that no function outside the package initializer and the registration API stores to one, updates or deletes in a map reachable from one, passes one by address to a call, or stores through a shared registry row; NOREFLECT shows the library starts no goroutine and uses no unsafe. Every statement's AST, plan and ExecuteCtx are allocated by its own NewOptimizer/NewExecuteCtx calls, so statements share only read-only tables and the caller's Storage. BYTESFRESH/ARGFRESH (evaluation never writes into memory it did not allocate: stored keys and values, cached columns and folded constants are shared between statements).",
 		"'Each returns exactly the result it returns alone' beyond absence of shared written state needs execution under a scheduler; the caller's Storage is out of scope.")
 }
